@@ -1987,6 +1987,9 @@ class Engine:
             dotted = ast.unparse(f)
             if dotted in self.builtins:
                 return self.builtins[dotted](self, n, st)
+            if dotted in self.contracts and self.contracts[dotted].static and isinstance(f.value, ast.Name) and f.value.id in self.tenv.records:
+                # Class.method(...) of a static / class method under contract
+                return self.call_contract(self.contracts[dotted], n, st, None)
             if isinstance(f.value, ast.Call) and isinstance(f.value.func, ast.Name) and f.value.func.id == "super" and not f.value.args:
                 # super().m(...): the contract of the base class's method (the sidecar names the base: BASES), applied to self
                 cls = self.cur_func.split(".")[0]
